@@ -401,8 +401,21 @@ theorem C23_demo_disconnect_codes :
 theorem C23_demo_disconnect_start_inv : P23.Inv c23DiscStart :=
   P23.SG.upd (P23.SG_init P23.TOK_true { receiveMaximum := 1, topicAliasMaximum := 5 } (by decide)) rfl rfl rfl rfl
 
+set_option maxRecDepth 1000000 in
+/-- why `W23.Covered` (the version / "written to an OPEN object" walk) cannot simply be extended to `.release`: a
+    connection parked in the authentication hook (`connectHold … 1`) is dropped — its object is closed — and then
+    released: the MODEL writes the CONNACK on that connection although the object is closed (`admitConnack` does not
+    look at `isOpen`; the real `SendConnack` fails on the closed connection).  `W23.OutOK` ("… is OPEN") is false for
+    this `.release`; an extension needs the hypothesis that no stage-1 parked connection is dropped, or a model change.
+    The `P23` theorems above do cover `.connectHold` / `.release` (they do not speak about `isOpen`). -/
+theorem C23_hold_drop_release_counterexample :
+    (getObj (run (init {}) [.connectHold 1 { ver := 4, id := [97] } 1, .drop 1]) 1).isOpen = false ∧
+    (R07.outsOf (init {}) [.connectHold 1 { ver := 4, id := [97] } 1, .drop 1, .release 1]).getLast? =
+      some [.wrote 1 (.connack 4 false 0 1024 2 none)] := by decide
+
 end Mochi.Broker
 
+#print axioms Mochi.Broker.C23_hold_drop_release_counterexample
 #print axioms Mochi.Broker.C23_publish_inv_reachable
 #print axioms Mochi.Broker.C23_publish_inv_step
 #print axioms Mochi.Broker.C23_publish_shape_partial
